@@ -92,3 +92,95 @@ def evaluate(ck, dcases, stats, what, coq_eval, tag):
 def coverage(stats):
     return {"dynamic_kernel_traces_validated": stats.get("dyn_traces", 0), "dynamic_kernel_calls_compared": stats.get("dyn_calls", 0),
             "dynamic_kernel_final_trees_compared": stats.get("dyn_trees", 0), "dynamic_kernel_traces_leaving_the_model": stats.get("dyn_left_model", 0)}
+
+
+# ---- tie T3: the model program on the model kernel vs the library on the real kernel ----------------------------------
+
+def exec_term(tree, job, res, openat2, ps):
+    """Coq term (list Z): the operation's model program executed by Dyn.drun on the tree the job was built from.
+    The descriptor numbers and the procfs handle are the model's own (root = 5, procfs = 4, mount id PROC_MNT)."""
+    import model as M
+    if not res.get("rootpath"):
+        return None, None
+    if not openat2 and any(op_[0] == "hardlink" for op_ in tree):
+        # the model identifies an object with ONE path (C01's premise); the emulated resolver's path check on a hard-linked file
+        # sees the name it was reached by: such trees are outside the static kernel model
+        return None, None
+    cfg = {"openat2": bool(openat2), "procfd": 4, "mnt": 7, "subset": False, "kind": "fsopen"}
+    prog, enc = M.op_program(job, {"root_fd": 5}, cfg, ps)
+    if prog is None:
+        return None, None
+    mk, idmap = F.tree_to_mkops(tree, res.get("build_errs", []))
+    obj = "obj_of_fd" if enc == "(enc_res enc_fd)" else "obj_none"
+    term = (f"let s := build {mk} in enc_exec (@{obj} _) (drun {cb(res['rootpath'])} "
+            f"{{| ds := s; dt := [(5%Z, ROOT); (4%Z, PB s)]; dseen := [] |}} ({prog}))") if obj == "obj_none" else \
+           (f"let s := build {mk} in enc_exec obj_of_fd (drun {cb(res['rootpath'])} "
+            f"{{| ds := s; dt := [(5%Z, ROOT); (4%Z, PB s)]; dseen := [] |}} ({prog}))")
+    return term, idmap
+
+
+KINDS = {"OsError": 1, "InvalidArgument": 2, "SafetyViolation": 3, "NotSupported": 4, "NotImplemented": 5, "InternalError": 6}
+
+
+def decode_exec(got):
+    code, x, y = got[0], got[1], got[2]
+    tree = None
+    if code in (0, 1) and len(got) > 3:
+        _b, _n, _l, tree = decode([0, 0, 0] + got[3:])
+    return code, x, y, tree
+
+
+def compare_exec(got, res, idmap):
+    """-> None when the model execution agrees with the real one, else a short description."""
+    code, x, y, mtree = decode_exec(got)
+    r = res.get("res", {})
+    if code == 7:
+        return "the model program panics (site %d)" % x
+    if code == 8:
+        return "the model program runs out of fuel"
+    if code == 1 and (x, y) == (1, 38) and not ("err" in r and r["err"].get("errno") == 38):
+        return "LEFT"           # the dynamic kernel model answered "outside this model" (ENOSYS) to a call of this execution
+    if "err" in r:
+        want = (KINDS.get(r["err"]["kind"], 99), r["err"].get("errno"))
+        if code != 1 or (x, y if x == 1 else want[1]) != want:
+            return "outcome: model %s, library %s" % ((code, x, y), want)
+    elif "ok" in r or "unit" in r or "bytes" in r:
+        if code != 0:
+            return "outcome: model fails with %s, library succeeds" % ((x, y),)
+        if "ok" in r and x >= 0 and x in idmap:
+            ob = res.get("objs", {}).get(idmap[x])
+            if ob and (ob[0], ob[1]) != (r["ok"]["dev"], r["ok"]["ino"]):
+                return "returned object: model %s, library another" % unhex(idmap[x]).decode("latin1")
+    else:
+        return None
+    rtree = real_dump(res.get("snap_after"))
+    if mtree is not None and res.get("snap_after") is not None and mtree != rtree:
+        return "final tree: only in model %s, only in reality %s" % (sorted(str(v) for v in mtree - rtree)[:5], sorted(str(v) for v in rtree - mtree)[:5])
+    return None
+
+
+def collect_exec(xcases, tree, job, res, openat2, ps, desc):
+    term, idmap = exec_term(tree, job, res, openat2, ps)
+    if term:
+        xcases.append((len(xcases), term, desc, res, idmap))
+
+
+def evaluate_exec(ck, xcases, stats, coq_eval, tag):
+    if not xcases:
+        return
+    evals, errs = coq_eval([(c[0], c[1]) for c in xcases], header=HEADER, tag=tag)
+    if errs:
+        ck.violation("T3: Coq evaluation of the model executions failed", {"log": errs[0][-1500:]}, False)
+    for cid, term, desc, res, idmap in xcases:
+        got = evals.get(cid)
+        if got is None or len(got) < 3:
+            continue
+        stats["exec_runs"] = stats.get("exec_runs", 0) + 1
+        why = compare_exec(got, res, idmap)
+        if why == "LEFT":
+            stats["exec_left_model"] = stats.get("exec_left_model", 0) + 1
+        elif why:
+            ck.violation("T3: the model program executed on the dynamic kernel model and the library on the running kernel end differently -- " + why,
+                         dict(desc, model=got[:3]), False)
+        else:
+            stats["exec_agree"] = stats.get("exec_agree", 0) + 1
